@@ -293,10 +293,26 @@ func TestVFC16Extract(t *testing.T) {
 		w := worlds[key]
 		if w == nil {
 			var err error
-			w, err = vfNewWorld(&vfWorldConf{
+			wc := &vfWorldConf{
 				ProtectionEnabled: true, FilteringEnabled: true, ServerName: c.ServerName, StrictSNI: c.Strict,
 				OnApplyClient: func(id string, _ netip.Addr) { attributed = append(attributed, id) },
-			})
+			}
+			if c.ServerName != "" {
+				// The certificate of the encrypted listeners is valid for more
+				// than the configured server name, as certificates often are:
+				// names of other services, wildcards.  The configured name
+				// alone decides what lies inside its domain.
+				parent := c.ServerName
+				if i := strings.IndexByte(parent, '.'); i >= 0 {
+					parent = parent[i+1:]
+				}
+				var cerr error
+				wc.TLSCert, cerr = vfSelfSignedCert(c.ServerName, "other.invalid", "*.invalid", "sib."+parent, "*."+parent, "*.evil", "*."+c.ServerName+".evil")
+				if cerr != nil {
+					t.Fatalf("VERIF-INCONCLUSIVE certificate: %v", cerr)
+				}
+			}
+			w, err = vfNewWorld(wc)
 			if err != nil {
 				t.Fatalf("VERIF-INCONCLUSIVE world: %v", err)
 			}
